@@ -7,6 +7,7 @@ mod damage;
 mod layout;
 mod backend;
 mod handle;
+mod twoh;
 mod locks;
 mod mutate;
 mod names;
@@ -21,6 +22,11 @@ fn main() {
     silence_panics();
     let cmd = args.get(1).map(|s| s.as_str()).unwrap_or("");
     match cmd {
+        "twohandles" => {
+            for v in twoh::campaign(arg_u64(&args, "--seed", 1), arg_u64(&args, "--count", 200)) {
+                println!("ORACLE {}", v);
+            }
+        }
         "handle" => {
             let ops = arg(&args, "--ops").unwrap();
             let imp = arg(&args, "--impl").unwrap();
